@@ -166,6 +166,19 @@ func (k *keyManagementContext) checkMessageCounter(message dataMsg) error {
 	return nil
 }
 
+// retireAllMACKeys returns copies of everything that waits to be revealed and of every receiving MAC key
+// that has been used under the current key pairs
+func (k *keyManagementContext) retireAllMACKeys() []macKey {
+	var ret []macKey
+	for _, key := range k.oldMACKeys {
+		ret = append(ret, append(macKey{}, key...))
+	}
+	for _, u := range k.macKeyHistory.items {
+		ret = append(ret, append(macKey{}, u.receivingKey...))
+	}
+	return ret
+}
+
 func (k *keyManagementContext) revealMACKeys() []macKey {
 	ret := k.oldMACKeys
 	k.oldMACKeys = []macKey{}
